@@ -8,5 +8,7 @@ CONSTANTS
   DedupKeys = TRUE
   AssembleByArrival = FALSE
   FoldUnsynchronised = FALSE
+  FailKeys = {}
+  MsetIgnoresChildErrors = FALSE
 INVARIANTS EqualsReference StoreIsReference ChildAtOwner
 CHECK_DEADLOCK FALSE
